@@ -37,3 +37,17 @@ pub fn pkthdr_from_bytes(b: &[u8; 16]) -> (r: Result<PcapPacketHeader, IoError>)
 { unimplemented!() }
 
 pub open spec fn record_caplen(rem: Seq<u8>) -> int { le32(rem, 8) }
+
+// ---- output side: a writer is the ghost sequence of bytes written so far; writes succeed (disk-full etc. are C22's) ----
+#[verifier::external_body] pub struct OutStream { _p: () }
+impl OutStream { pub uninterp spec fn written(&self) -> Seq<u8>; }
+#[verifier::external_body]
+pub fn write_all(st: &mut OutStream, bytes: &Vec<u8>) -> (r: Result<(), IoError>)
+    ensures r is Ok, final(st).written() == old(st).written() + bytes@
+{ unimplemented!() }
+// From<&PcapGlobalHeader> for Vec<u8>: 24 bytes, little-endian fields (Kani: pcapcodec::c19_global_header_codec)
+pub uninterp spec fn ghdr_bytes(h: PcapGlobalHeader) -> Seq<u8>;
+#[verifier::external_body]
+pub fn ghdr_to_bytes(h: &PcapGlobalHeader) -> (r: Vec<u8>) ensures r@ == ghdr_bytes(*h) { unimplemented!() }
+pub const PCAP_MAGIC_US: u32 = 0xA1B2C3D4;
+pub const PCAP_MAGIC_NS: u32 = 0xA1B23C4D;
